@@ -339,8 +339,24 @@ func accessPath(v ssa.Value) string {
 // joinParts resolves path == filepath.Join(a, b, ...) and returns the access paths / parameter names of the parts.
 func joinParts(fn *ssa.Function, v ssa.Value) []string {
 	call, ok := v.(*ssa.Call)
-	if !ok || staticCalleeName(call) != "path/filepath.Join" || len(call.Call.Args) != 1 {
+	if !ok {
 		return []string{"<not filepath.Join>"}
+	}
+	if staticCalleeName(call) != "path/filepath.Join" {
+		// a helper of the package that returns the joined path (e.g. the package directory)
+		if parts := helperPathParts(call, 0); parts != nil {
+			return parts
+		}
+		return []string{"<not filepath.Join>"}
+	}
+	return joinElems(fn, call, 0)
+}
+
+// joinElems flattens the elements of a filepath.Join call; an element that is itself a joined path (a nested Join, or a helper
+// of the package returning one) contributes its own elements.
+func joinElems(fn *ssa.Function, call *ssa.Call, depth int) []string {
+	if len(call.Call.Args) != 1 {
+		return []string{"<not a literal argument list>"}
 	}
 	sl, ok := call.Call.Args[0].(*ssa.Slice)
 	if !ok {
@@ -350,7 +366,7 @@ func joinParts(fn *ssa.Function, v ssa.Value) []string {
 	if !ok {
 		return []string{"<not a literal argument list>"}
 	}
-	parts := map[int64]string{}
+	parts := map[int64][]string{}
 	for _, r := range *al.Referrers() {
 		ia, ok := r.(*ssa.IndexAddr)
 		if !ok {
@@ -365,14 +381,22 @@ func joinParts(fn *ssa.Function, v ssa.Value) []string {
 			if st, ok := rr.(*ssa.Store); ok {
 				switch x := st.Val.(type) {
 				case *ssa.Parameter:
-					parts[idx] = "param:" + x.Name()
+					parts[idx] = []string{"param:" + x.Name()}
 				case *ssa.Const:
-					parts[idx] = "const:" + x.Value.ExactString()
+					parts[idx] = []string{"const:" + x.Value.ExactString()}
+				case *ssa.Call:
+					if staticCalleeName(x) == "path/filepath.Join" && depth < 3 {
+						parts[idx] = joinElems(fn, x, depth+1)
+					} else if hp := helperPathParts(x, depth+1); hp != nil {
+						parts[idx] = hp
+					} else {
+						parts[idx] = []string{"<" + x.String() + ">"}
+					}
 				default:
 					if p := accessPath(st.Val); p != "" {
-						parts[idx] = p
+						parts[idx] = []string{p}
 					} else {
-						parts[idx] = "<" + st.Val.String() + ">"
+						parts[idx] = []string{"<" + st.Val.String() + ">"}
 					}
 				}
 			}
@@ -385,9 +409,45 @@ func joinParts(fn *ssa.Function, v ssa.Value) []string {
 	sort.Slice(idxs, func(i, j int) bool { return idxs[i] < idxs[j] })
 	var out []string
 	for _, k := range idxs {
-		out = append(out, parts[k])
+		out = append(out, parts[k]...)
 	}
 	return out
+}
+
+// helperPathParts: call is a static call of a function of the module with one string result, every return of which is a
+// filepath.Join (or another such helper): the elements of that path, named relative to the helper's own receiver/parameters.
+func helperPathParts(call *ssa.Call, depth int) []string {
+	g := call.Call.StaticCallee()
+	if g == nil || depth > 3 || len(g.Blocks) == 0 || !strings.HasPrefix(fnPkgPath(g), modPath) || g.Signature.Results().Len() != 1 {
+		return nil
+	}
+	var parts []string
+	n := 0
+	for _, b := range g.Blocks {
+		ret, ok := b.Instrs[len(b.Instrs)-1].(*ssa.Return)
+		if !ok {
+			continue
+		}
+		n++
+		rc, ok := retOperand(ret, 0).(*ssa.Call)
+		if !ok {
+			return nil
+		}
+		var p []string
+		if staticCalleeName(rc) == "path/filepath.Join" {
+			p = joinElems(g, rc, depth+1)
+		} else {
+			p = helperPathParts(rc, depth+1)
+		}
+		if p == nil || (parts != nil && strings.Join(parts, "|") != strings.Join(p, "|")) {
+			return nil
+		}
+		parts = p
+	}
+	if n == 0 {
+		return nil
+	}
+	return parts
 }
 
 func checkOSFlagConsts(c *Ctx) {
